@@ -33,8 +33,9 @@ ASSUMPTIONS = [
     "any exception from an operation only means 'no result' (e.g. comparing "
     "truncated with full points); aliasing alone is not a violation, an "
     "observable change is",
-    "operations that may legitimately run very long (truncated addition to a "
-    "point with fractional seconds, membership tests far from the series) are "
+    "operations that may legitimately run very long (adding a truncated point "
+    "that names a time-of-day field to a point with fractional seconds; "
+    "date-only truncated points are added to such points; membership tests far from the series) are "
     "not issued / are cut by a 5 s watchdog and counted as no result",
 ]
 
@@ -215,13 +216,30 @@ class Interp:
             return P(a) - Du(b)
         if op == "tp-tp":
             return P(a) - P(b)
-        if op == "tp+tp":           # truncated + full, either order
+        if op in ("tp+tp", "trunc+full"):   # truncated + full, either order
             x, y = P(a), P(b)
+            if op == "trunc+full":
+                # operands chosen by kind, so that the pair is always one
+                # truncated and one full point
+                pool = self.pools["tp"]
+                ts = [q for q in pool if q.truncated]
+                fs = [q for q in pool if not q.truncated]
+                if not ts or not fs:
+                    return None
+                x, y = ts[a % len(ts)], fs[b % len(fs)]
+                for q in (x, y):
+                    if id(q) in self.result_ids:
+                        self.reused = True
+                if n % 2:
+                    x, y = y, x
+            timed = any(q is not None and q.truncated and TIME_FIELDS &
+                        set(q.get_truncated_properties()) for q in (x, y))
             for q in (x, y):
-                if q is not None and not q.truncated:
-                    s, m = q.second_of_minute, q.minute_of_hour
-                    if not (float(s).is_integer() and float(m).is_integer()):
-                        return None     # fractional seconds: may never match
+                if timed and q is not None and not q.truncated and \
+                        fractional_time(q):
+                    # a time-of-day field is stepped in whole seconds and
+                    # never meets a fractional one (outside C20's domain)
+                    return None
             return x + y
         if op.startswith("tpcmp/"):
             return cmpops[op[6:]](P(a), P(b))
@@ -270,8 +288,7 @@ class Interp:
                 props = [{"hour_of_day": 6}, {"day_of_month": 31},
                          {"day_of_week": 1, "minute_of_hour": 30},
                          {"day_of_year": 366}][n % 4]
-            if not (float(x.second_of_minute).is_integer() and
-                    float(x.minute_of_hour).is_integer()):
+            if TIME_FIELDS & set(props) and fractional_time(x):
                 return None
             return x.add_truncated(**props)
         if op == "dur+dur":
@@ -329,7 +346,7 @@ class Interp:
         raise KeyError(op)
 
 
-OPS = ["tp+dur", "dur+tp", "tp-dur", "tp-tp", "tp+tp", "tpcmp/lt", "tpcmp/le",
+OPS = ["tp+dur", "dur+tp", "tp-dur", "tp-tp", "tp+tp", "trunc+full", "tpcmp/lt", "tpcmp/le",
        "tpcmp/eq", "tpcmp/ne", "tpcmp/gt", "tpcmp/ge", "tp_hash", "tp_str",
        "tp_strftime", "tp_dump", "tp_to_tz", "tp_conv", "tp_get", "tp_prop",
        "tp_tzoffset", "tp_add_months", "tp_add_truncated", "dur+dur", "dur-dur",
@@ -355,6 +372,14 @@ def check_case(case):
                    weight=max(it.nops, 1), classes=["replayed_history"])
 
 
+TIME_FIELDS = {"hour_of_day", "minute_of_hour", "second_of_minute"}
+
+
+def fractional_time(q):
+    return not all(v is None or float(v).is_integer() for v in (
+        q.hour_of_day, q.minute_of_hour, q.second_of_minute))
+
+
 YEARS = st.one_of(st.integers(1998, 2004),
                   st.sampled_from([1999, 2000, 2003, 2004, 2000, 2004, 0, 1, 9999]))
 
@@ -363,7 +388,7 @@ YEARS = st.one_of(st.integers(1998, 2004),
 def st_trunc_kw(draw):
     from vlib.checks import c20
     t = {}
-    fields = draw(st.sampled_from(["h", "hm", "hms", "m", "s", "none"]))
+    fields = draw(st.sampled_from(["h", "hm", "hms", "m", "s", "none", "none"]))
     if "h" in fields:
         t["h"] = draw(st.integers(0, 23))
     if "m" in fields:
